@@ -124,6 +124,68 @@ Section OStore.
   Qed.
 End OStore.
 
+(** ** Re-inserting the VALUES of a sorted store under the keys derived from them *)
+Section Keyed.
+  Context {K V : Type} `{EqDec K}.
+  Variable ltb : K -> K -> bool.
+  Hypothesis ltb_irrefl : forall k, ltb k k = false.
+  Hypothesis ltb_asym : forall a b, ltb a b = true -> ltb b a = false.
+  Variable key : V -> K.
+
+  (** the import loop "for each exported object: store.Set(key(object), object)" *)
+  Definition okeyed (vs : list V) : list (K * V) :=
+    fold_left (fun m v => oins ltb (key v) v m) vs [].
+
+  Lemma fold_left_map_gen {A B C} (f : A -> B -> A) (g : C -> B) l : forall a,
+    fold_left f (map g l) a = fold_left (fun a x => f a (g x)) l a.
+  Proof. induction l as [|x l IH]; intros a; simpl; [reflexivity|apply IH]. Qed.
+
+  Theorem okeyed_sorted (l : list (K * V)) :
+    sorted ltb l -> Forall (fun e => key (snd e) = fst e) l -> okeyed (map snd l) = l.
+  Proof.
+    intros Hs Hk. unfold okeyed. rewrite fold_left_map_gen.
+    rewrite <- (oof_list_sorted ltb ltb_irrefl ltb_asym l Hs) at 2. unfold oof_list.
+    assert (Hgen : forall acc,
+      fold_left (fun a (x : K * V) => oins ltb (key (snd x)) (snd x) a) l acc
+      = fold_left (fun m kv => oins ltb (fst kv) (snd kv) m) l acc).
+    { clear Hs. induction l as [|e l IH]; intros acc; simpl; [reflexivity|].
+      inversion Hk as [|? ? He Hk']; subst. rewrite He. apply IH. exact Hk'. }
+    apply Hgen.
+  Qed.
+
+  Lemma In_oins_same k v (m : list (K * V)) : In (k, v) (oins ltb k v m).
+  Proof.
+    induction m as [|[k' v'] m IH]; simpl; [left; reflexivity|].
+    destruct (eq_dec k k'); [left; reflexivity|].
+    destruct (ltb k k'); [left; reflexivity|right; exact IH].
+  Qed.
+
+  Lemma In_oins_other (e : K * V) k v m : In e m -> fst e <> k -> In e (oins ltb k v m).
+  Proof.
+    induction m as [|[k' v'] m IH]; simpl; intros Hin Hne; [contradiction|].
+    destruct (eq_dec k k') as [->|Hk].
+    - destruct Hin as [<-|Hin]; [simpl in Hne; congruence|right; exact Hin].
+    - destruct (ltb k k'); [right; exact Hin|].
+      destruct Hin as [<-|Hin]; [left; reflexivity|right; apply IH; assumption].
+  Qed.
+
+  Lemma In_oins_inv (e : K * V) k v m : In e (oins ltb k v m) -> e = (k, v) \/ In e m.
+  Proof.
+    induction m as [|[k' v'] m IH]; simpl; intros Hin.
+    - destruct Hin as [<-|[]]. left; reflexivity.
+    - destruct (eq_dec k k') as [->|Hk].
+      + destruct Hin as [<-|Hin]; [left; reflexivity|right; right; exact Hin].
+      + destruct (ltb k k').
+        * destruct Hin as [<-|Hin]; [left; reflexivity|right; exact Hin].
+        * destruct Hin as [<-|Hin]; [right; left; reflexivity|].
+          destruct (IH Hin) as [->|Hm]; [left; reflexivity|right; right; exact Hm].
+  Qed.
+End Keyed.
+
+(** [sortedb] / [forallb] facts in the shape the per-module proofs use *)
+Lemma forallb_Forall {A} (p : A -> bool) l : forallb p l = true -> Forall (fun x => p x = true) l.
+Proof. intros Hf. apply Forall_forall. apply forallb_forall. exact Hf. Qed.
+
 (** ** Key orders used by the models *)
 Definition lt1 (a b : Z) : bool := a <? b.
 Definition lt2 (a b : Z * Z) : bool :=
